@@ -285,7 +285,7 @@ struct CIterator \{
         }
     };
 
-    constexpr iterator begin() {
+    inline iterator begin() {
         return iterator(this);
     }
 
